@@ -102,7 +102,8 @@ theorem ledger_scalars_disciplined :
       ["AccountingBook.CreateGenesis", "AccountingBook.LoadDag"].contains s.fn && excl "AccountingBook.mux" s) = true ∧
     (((at_ "AccountingBook.genesisPublicAddress").filter (·.write)).all fun s =>
       ["AccountingBook.CreateGenesis", "AccountingBook.LoadDag"].contains s.fn && excl "AccountingBook.mux" s) = true ∧
-    (((at_ "AccountingBook.nextWeightTruncate").filter (·.write)).all fun s =>
+    -- confined: not only the writes, every access (the truncation goroutine reads and writes it without a lock)
+    ((at_ "AccountingBook.nextWeightTruncate").all fun s =>
       ["AccountingBook.LoadDag", "AccountingBook.runTruncate"].contains s.fn) = true ∧
     ((at_ "AccountingBook.repeater").all fun s => !s.write) = true := by
   decide +kernel
